@@ -101,7 +101,7 @@ variable (cfg : Cfg) (P : Store) (now : Tick) (exec : Id → Nat → Outcome)
 variable (hsub : ∀ i ∈ cfg.selected, i ∈ cfg.owned) (hu : UniformOn cfg.owned P)
 variable (hr : handlerReasons.contains cfg.reason = true) (hne : cfg.selected.isEmpty = false)
 variable (hopen : (cycle cfg P now now exec).closed = false)
-variable (hfin : ∀ i n, (exec i n).final = true)
+variable (hfin : PlanFinal cfg P now exec)
 include hsub hu hr hne hopen hfin
 
 theorem open_U_le : Uv cfg.selected (cycle cfg P now now exec).P' ≤ Uv cfg.selected P := by
@@ -147,30 +147,25 @@ theorem handleTurn_cases (env : Env) (s : State E) :
     (changedOf env s = true ∧ handleTurn env s = nextState env s (s.now + env.lat) true (s.writes + 1)) ∨
     (∃ d, changedOf env s = false ∧ minDelay (pass env s).delays = some d ∧
       handleTurn env s = nextState env s (s.now + (if d > env.cap then env.cap else d) + (latS env)) true (s.writes + cp env + 1)) ∨
-    (changedOf env s = false ∧ (idle env = true ∨ minDelay (pass env s).delays = none) ∧
+    (changedOf env s = false ∧ minDelay (pass env s).delays = none ∧
       handleTurn env s = nextState env s s.now false (s.writes + cp env)) := by
   by_cases hch : changedOf env s = true
   · left
     exact ⟨hch, by unfold handleTurn; rw [if_pos hch]⟩
   · have hch' : changedOf env s = false := by simpa using hch
     right
-    by_cases hid : idle env = true
-    · right
-      refine ⟨hch', Or.inl hid, ?_⟩
-      unfold handleTurn
-      rw [if_neg hch, if_pos hid]
     cases hm : minDelay (pass env s).delays with
     | some d =>
       left
       refine ⟨d, hch', rfl, ?_⟩
       unfold handleTurn
-      rw [if_neg hch, if_neg hid]
+      rw [if_neg hch]
       simp only [hm]
     | none =>
       right
-      refine ⟨hch', Or.inr rfl, ?_⟩
+      refine ⟨hch', rfl, ?_⟩
       unfold handleTurn
-      rw [if_neg hch, if_neg hid]
+      rw [if_neg hch]
       simp only [hm]
 
 /-- a purge of records that are not there changes nothing -/
@@ -371,7 +366,7 @@ theorem int_sleep_le (now d cap lat : Int) (hd : 0 ≤ d) (hcap : 0 < cap) (hlat
 
 /-- A turn that runs the handling pass (and does not release the object) strictly decreases the
     handling bound. `hcm`: a closing pass on a marked object is a release turn, not this one. -/
-theorem handle_decreases (env : Env) (wf : WF env) (hfin : AllFinal env) (s : State E)
+theorem handle_decreases (env : Env) (wf : WF env) (s : State E) (hfin0 : PassFinal env s)
     (hu : UniformOn env.owned s.P) (hp : s.pending = true) (hpm : env.prematch = true)
     (hcm : (pass env s).closed = true → s.marked = false) :
     hbound env (handleTurn env s) < hbound env s := by
@@ -445,6 +440,8 @@ theorem handle_decreases (env : Env) (wf : WF env) (hfin : AllFinal env) (s : St
       rw [this] at hc'
       cases hc'
   have hopen : (cycle (cfgOf env s) s.P s.now s.now env.exec).closed = false := hc'
+  have hfin : PlanFinal (cfgOf env s) s.P s.now env.exec :=
+    planFinal_of_invoked (now1 := s.now) hsub hu hr hne hfin0
   have hULe : Uv (selOf env s) (pass env s).P' ≤ Uv (selOf env s) s.P :=
     open_U_le (cfgOf env s) s.P s.now env.exec hsub hu hr hne hopen hfin
   have hX : ∀ now', extras (cfgOf env s) (pass env s).P' now' = false := fun now' =>
